@@ -14,6 +14,8 @@ def replay(ob):
     n = ob["name"]
     if ".add." in n:
         return HEAD + "main(['abs_add'])\n"
+    if "MaterializeReshapeShape" in n:
+        return HEAD + "main(['materialize_reshape_zero'])\n"
     if "expand_removable" in n:
         return HEAD + "main(['expand_rank'])\n"
     return None
